@@ -40,8 +40,11 @@ def tag(E, st, x):
 
 def sem_axioms(E, st):
     """one-step unfolding of sem and of tree well-formedness (pattern-guarded)"""
+    return sem_axioms_arr(H(E, st, "ast_tag"), H(E, st, "body"), H(E, st, "id"), H(E, st, "op"))
+
+
+def sem_axioms_arr(tg, body, nid, op):
     x, K, i = z3.Const("sx", Ref), z3.Const("sK", IdSet), z3.Int("si")
-    tg, body, nid, op = H(E, st, "ast_tag"), H(E, st, "body"), H(E, st, "id"), H(E, st, "op")
     is_root = z3.Or(tg[x] == T_EXPRESSION, tg[x] == T_GPR)
     kids_any = z3.Exists([i], z3.And(0 <= i, i < values_len(x), sem(values_at(x, i), K)))
     kids_all = z3.ForAll([i], z3.Implies(z3.And(0 <= i, i < values_len(x)), sem(values_at(x, i), K)))
@@ -208,7 +211,9 @@ def _rule_ok(E, st, r):
 REG.add(Contract(MR, "Reaction.functional@getter", "C07", [("self", TRef("Reaction"))], [
     Case("any", ensures=lambda E: E.res.t == z3.Not(rule_false(E, E.s0, E["self"].t))),
 ], pre=lambda E: _rule_ok(E, E.s0, E["self"].t), axioms=lambda E: sem_axioms(E, E.s0) + nf_axiom(),
-    key="Reaction.functional@getter", result="bool"))
+    key="Reaction.functional@getter",
+    # the result is the term itself (not a fresh constant constrained by the post): usable inside comprehension conditions
+    result=lambda eng, st, E: (st, VBool(z3.Not(rule_false(E, st, E["self"].t))))))
 
 REG.add(Contract(MG, "Gene.functional@setter", "C07", [("self", TRef("Gene")), ("value", TBool())], [
     Case("bool", ensures=lambda E: z3.And(H(E, E.s1, "_functional")[E["self"].t] == E["value"].t,
@@ -274,3 +279,134 @@ REG.add(Contract(MG, "Gene.knock_out", "C07", [("self", TRef("Gene"))], [Case("a
                  modifies=KO_MOD, key="Gene.knock_out",
                  loops={0: LoopSpec(_gko_inv, lambda E, Lc: [("heap", "_lower_bound"), ("heap", "_upper_bound"),
                                                             ("heap", "var_lb"), ("heap", "var_ub")])}))
+
+
+# ---------------------------------------------------------------- knock_out_model_genes (manipulation/delete.py)
+# sem is monotone: making MORE genes absent can only turn a rule from True to False (and/or without negation).  The lemma is
+# proved by structural induction whose step is the obligation `sem-monotone/induction-step` below (trees are finite and acyclic:
+# the well-formedness assumption already in the trusted base); the contracts that need it assume it as an axiom.
+idset_subset = z3.Function("idset_subset", IdSet, IdSet, z3.BoolSort())
+subset_wit = z3.Function("idset_subset_wit", IdSet, IdSet, Id)
+
+
+def sem_mono_axioms():
+    t, K, K2 = z3.Const("mt", Ref), z3.Const("mK", IdSet), z3.Const("mK2", IdSet)
+    w = subset_wit(K, K2)
+    return [z3.ForAll([K, K2], z3.Or(idset_subset(K, K2), z3.And(K[w], z3.Not(K2[w]))), patterns=[idset_subset(K, K2)]),
+            z3.ForAll([t, K, K2], z3.Implies(z3.And(wf(t), t != NULL, idset_subset(K, K2), sem(t, K2)), sem(t, K)),
+                      patterns=[z3.MultiPattern(sem(t, K), sem(t, K2))])]
+
+
+def mono_lemmas():
+    """induction step of: wf(t), K subset K2, sem(t, K2)  ==>  sem(t, K)"""
+    from pyvc.engine import Obl
+    tg, body = z3.Const("l_tag", z3.ArraySort(Ref, z3.IntSort())), z3.Const("l_body", z3.ArraySort(Ref, Ref))
+    nid, op = z3.Const("l_id", z3.ArraySort(Ref, Id)), z3.Const("l_op", z3.ArraySort(Ref, Ref))
+    t, K, K2 = z3.Const("l_t", Ref), z3.Const("l_K", IdSet), z3.Const("l_K2", IdSet)
+    k, i = z3.Const("l_k", Id), z3.Int("l_i")
+    is_root = z3.Or(tg[t] == T_EXPRESSION, tg[t] == T_GPR)
+    hyp = sem_axioms_arr(tg, body, nid, op) + [
+        wf(t), t != NULL,
+        z3.ForAll([k], z3.Implies(K[k], K2[k])),
+        # induction hypothesis: the claim holds for every child of t
+        z3.Implies(z3.And(is_root, body[t] != NULL), z3.Implies(sem(body[t], K2), sem(body[t], K))),
+        z3.ForAll([i], z3.Implies(z3.And(0 <= i, i < values_len(t), sem(values_at(t, i), K2)), sem(values_at(t, i), K)),
+                  patterns=[values_at(t, i)]),
+    ]
+    return [Obl("C07/lemma/sem-monotone/induction-step", hyp, z3.Implies(sem(t, K2), sem(t, K)), "lemma")]
+
+
+def _kmg_model_t():
+    return TObj("Model", {"genes": TDictList("Gene")})
+
+
+def _xref_ok(E, st):
+    """cross-references between reactions and genes are consistent (C02's invariant): g in genes(x) <=> x in reactions(g)"""
+    g, x = qv("xg", Ref), qv("xx", Ref)
+    G, R_ = H(E, st, "_genes"), H(E, st, "_reaction")
+    return FA([g, x], G[x][g] == R_[g][x], patterns=[G[x][g], R_[g][x]])
+
+
+def _kmg_list(st):
+    l = st.ghost["kmg_list"]
+    rec = st.objs[l.oid]
+    return rec["len"], rec["elem"]
+
+
+def _gba_result(eng, st, E):
+    from pyvc.state import alloc_list
+    st, l = alloc_list(st, "ref:Gene")
+    n, e = st.objs[l.oid]["len"], st.objs[l.oid]["elem"]
+    j = qv("gj")
+    st = st.assume(n >= 0, FA([j], z3.Implies(z3.And(0 <= j, j < n), z3.Select(e, j) != NULL), patterns=[z3.Select(e, j)]))
+    return st.setghost("kmg_list", l), l
+
+
+REG.add(Contract("cobra/core/dictlist.py", "DictList.get_by_any", "C07", [("self", TDictList("Gene")), ("iterable", TNone())],
+                 [Case("any", ensures=lambda E: z3.BoolVal(True))], assumed=True, key="DictList.get_by_any", result=_gba_result,
+                 note="model.genes.get_by_any(items): a NEW list of (non-None) members, one per item, looked up by index / identifier "
+                      "/ identity; may raise for an unknown item (then nothing has been changed)"))
+REG.get("DictList.get_by_any").cases[0].may_raise = "KeyError"
+
+
+def _in_upto(e, t, g):
+    j = qv("uj")
+    return z3.Exists([j], z3.And(0 <= j, j < t, z3.Select(e, j) == g))
+
+
+def _touched_upto(E, e, t, x):
+    j = qv("tj")
+    R0 = H(E, E.s0, "_reaction")
+    return z3.Exists([j], z3.And(0 <= j, j < t, R0[z3.Select(e, j)][x]))
+
+
+def _kmg_state(E, st, e, t, with_set=None):
+    g, x = qv("sg", Ref), qv("sx2", Ref)
+    fun, fun0 = H(E, st, "_functional"), H(E, E.s0, "_functional")
+    cs = [FA([g], fun[g] == z3.And(fun0[g], z3.Not(_in_upto(e, t, g))), patterns=[fun[g]]),
+          FA([x], _ko_effect(E, st, E.s0, st, x, _touched_upto(E, e, t, x)), patterns=[H(E, st, "_lower_bound")[0][x]])]
+    if with_set is not None:
+        dom = st.objs[with_set.oid]
+        if dom.get("lazy"):
+            cs.append(FA([x], z3.Not(_touched_upto(E, e, t, x))))
+        else:
+            j = qv("wj")
+            R0 = H(E, E.s0, "_reaction")
+            # rxn_set = the reactions of the genes handled so far; both directions separately, each with the trigger it needs
+            cs.append(FA([x], z3.Implies(z3.Select(dom["dom"], x), _touched_upto(E, e, t, x)), patterns=[z3.Select(dom["dom"], x)]))
+            cs.append(FA([j, x], z3.Implies(z3.And(0 <= j, j < t, R0[z3.Select(e, j)][x]), z3.Select(dom["dom"], x)),
+                         patterns=[R0[z3.Select(e, j)][x]]))
+    return z3.And(*cs)
+
+
+def _kmg_inv(E, Lc):
+    n, e = _kmg_list(Lc.st)
+    return z3.And(_kmg_state(E, Lc.st, e, Lc.i, with_set=Lc.var("rxn_set")), _all_valid(E, Lc.st), Lc.n == n)
+
+
+def _kmg_post(E):
+    n, e = _kmg_list(E.s1)
+    rn, re_ = L(E.s1, E.res)
+    j, x, w = qv("rj"), qv("rx", Ref), qv("rw")
+    hit = lambda y: z3.And(_touched_upto(E, e, n, y), rule_false(E, E.s1, y))  # noqa
+    return z3.And(_kmg_state(E, E.s1, e, n),
+                  FA([j], z3.Implies(z3.And(0 <= j, j < rn), hit(z3.Select(re_, j))), patterns=[z3.Select(re_, j)]),
+                  FA([x], z3.Implies(hit(x), z3.Exists([w], z3.And(0 <= w, w < rn, z3.Select(re_, w) == x)))))
+
+
+def _kmg_unchanged(E):
+    """get_by_any raised for an unknown item: nothing has been touched yet"""
+    g, x = qv("ug", Ref), qv("ux", Ref)
+    fun, fun0 = H(E, E.s1, "_functional"), H(E, E.s0, "_functional")
+    return z3.And(FA([g], fun[g] == fun0[g]), FA([x], _bounds_eq(E, E.s1, x, *C1.lbub(E, E.s0, x))))
+
+
+_kmg_case = Case("any", ensures=_kmg_post)
+_kmg_case.may_raise = "KeyError"
+_kmg_case.ensures_on_raise = _kmg_unchanged
+REG.add(Contract(MD, "knock_out_model_genes", "C07", [("model", _kmg_model_t()), ("gene_list", TNone())],
+                 [_kmg_case],
+                 pre=lambda E: z3.And(_all_valid(E, E.s0), _rules_ok(E, E.s0), _xref_ok(E, E.s0)),
+                 axioms=lambda E: sem_axioms(E, E.s0) + nf_axiom() + sem_mono_axioms(),
+                 modifies=KO_MOD, key="knock_out_model_genes", result="opaque",
+                 loops={0: LoopSpec(_kmg_inv, lambda E, Lc: KO_MOD(E) + [("setlazy", Lc.var("rxn_set"), "ref:Reaction")])}))
